@@ -10,7 +10,7 @@ postcondition of writeForever -- on return nothing accepted before the stop is l
 unless the final pass was cut short by a backend failure that was logged -- covers every
 placement of the stop, including inside the idle sleep.
 """
-from pyvc.runner import Unit, Property, Syntactic
+from pyvc.runner import Unit, Property, Syntactic, Bounded
 from . import writer_units as WU
 from . import writer_forever as WF
 
@@ -24,6 +24,10 @@ def build():
   ]
   return Property(
     'C04', units,
+    bounded=[Bounded('C04/native/stop_placement_cross_check', 'replay/writer_native.py',
+                     ['--what', 'shutdown', '--inflight', '1'], ['--what', 'shutdown', '--inflight', '2', '--thorough'],
+                     "the real writeForever with a virtual clock, a storage double without faults and a sys.settrace scheduler: 4 initial workloads x every placement of 0..1 stores by the 'storing thread' and of the stop (thorough: also two stores, placed at every third step) (shutdownModifyUpdateSpeed, then reactor.running = False) over the line steps of one full pass plus 22 further steps (idle sleep, next pass) x strategies sorted / timesorted / bucketmax / none (thorough: all seven) x create limit, update limit, MAX_UPDATES_PER_SECOND_ON_SHUTDOWN set / unset x MIN_TIMESTAMP_LAG 0 / 5 with datapoints younger than the lag: writeForever returns, the cache is empty and every datapoint stored before the stop was taken by the writer",
+                     "cross-check on CPython of the loop-exit argument (exit of writeCachedDataPoints means nothing eligible; final pass after the loop); line granularity in writer.py, cache operations atomic")],
     syntactic=[Syntactic('C04/wiring/before_shutdown_trigger_and_single_writer_thread', WF.shutdown_wiring,
                          'shutdownModifyUpdateSpeed is a before-shutdown trigger; writeForever runs on one pool thread')],
     trusted_base=['A-ENGINE', 'A-SMT', 'A-TWISTED-DEFER', 'A-THREADS', 'A-BACKEND'],
